@@ -17,7 +17,7 @@ Abstract program (JSON-able dict, so it can be written into replay files as is):
 
 * node ids are list positions; every reference points to a smaller id (ids are *an* abstract
   creation order; realisations are free to create nodes in any order compatible with the dataflow).
-* `op` ∈ arg, init, Constant, Add, Mul, Neg, Abs, Identity, Not, Less, Cast, Where, Concat (variadic),
+* `op` ∈ arg, init, Constant, Add, Sub, Mul, Max / Min (variadic), Transpose, Neg, Abs, Identity, Not, Less, Cast, Where, Concat (variadic),
   Clip (inner / trailing optional inputs), ReduceSum (trailing optional input omitted),
   Split (multi-output, optional `split` input), TopK (multi-output), Reshape (to rank 1),
   Scan (ins = states + scan inputs; body args = state formals + slice formals; body res = states +
@@ -70,6 +70,7 @@ ONNX_NAME = {
     "Identity": "Identity", "Not": "Not", "Less": "Less", "Cast": "Cast", "Where": "Where",
     "Concat": "Concat", "Clip": "Clip", "ReduceSum": "ReduceSum", "Split": "Split", "TopK": "TopK",
     "If": "If", "Loop": "Loop", "Scan": "Scan", "Reshape": "Reshape",
+    "Sub": "Sub", "Max": "Max", "Min": "Min", "Transpose": "Transpose",
 }
 SUB_ATTRS = {"If": ["then_branch", "else_branch"], "Loop": ["body"], "Scan": ["body"]}
 LAYOUTS = ["C", "T", "F", "strided", "rev", "broadcast"]
@@ -230,8 +231,9 @@ class _Gen:
         self.bias = bool(active) and rng.random() < 0.4
         deep = depth < self.max_depth
         choice = rng.choices(
-            ["un", "bin", "less", "cast", "where", "concat", "clip", "rsum", "split", "topk", "const", "flat", "if", "loop", "scan"],
-            [14, 22, 6, 8, 7, 7, 8, 5, 6, 5, 6, 5, 10 if deep else 0, 7 if deep else 0, 4 if deep else 0],
+            ["un", "bin", "less", "cast", "where", "concat", "clip", "rsum", "split", "topk", "const", "flat", "if", "loop", "scan",
+             "maxmin", "transpose"],
+            [14, 22, 6, 8, 7, 7, 8, 5, 6, 5, 6, 5, 10 if deep else 0, 7 if deep else 0, 4 if deep else 0, 5, 4],
         )[0]
         if choice == "const":
             self.make_const(rng.choice([ty("i64", [N]), ty("f32", [N]), ty("i64", []), ty("f32", []), ty("bool", [N]),
@@ -248,6 +250,25 @@ class _Gen:
             return
         if choice == "scan":
             self.gen_scan(active, depth)
+            return
+        if choice == "maxmin":  # variadic, 1-3 operands of one type
+            x = self.pick(self.usable(active, lambda u: num(u) and not u[2] and concrete(u)))
+            if x is None:
+                return
+            t = self.tyof(x)
+            parts = [x] + [self.find_or_make(active, t, p_reuse=0.9) for _ in range(rng.choice([0, 1, 1, 2]))]
+            rng.shuffle(parts)
+            self.add(rng.choice(["Max", "Min"]), parts, tys=[t])
+            return
+        if choice == "transpose":
+            x = self.pick(self.usable(active, lambda u: not u[2] and concrete(u) and len(u[1]) >= 2))
+            if x is None:
+                x = self.make_const(rng.choice([ty("i64", [2, N]), ty("f32", [N, 2]), ty("i64", [2, 2, N])]))
+            t = self.tyof(x)
+            perm = list(range(len(t[1])))
+            while perm == sorted(perm):
+                rng.shuffle(perm)
+            self.add("Transpose", [x], attrs={"perm": perm}, tys=[ty(t[0], [t[1][i] for i in perm])])
             return
         if choice == "un":
             a = self.pick(self.usable(active))
@@ -278,7 +299,7 @@ class _Gen:
             if choice == "less":
                 self.add("Less", [a, b], tys=[ty("bool", sh[0], sh[1])])
             else:
-                self.add(rng.choice(["Add", "Add", "Mul"]), [a, b], tys=[ty(ta[0], sh[0], sh[1])])
+                self.add(rng.choice(["Add", "Add", "Mul", "Sub"]), [a, b], tys=[ty(ta[0], sh[0], sh[1])])
             return
         if choice == "cast":
             # never Cast directly on a Cast result: onnxruntime's mandatory duplicate-cast removal
@@ -636,7 +657,16 @@ def typecheck(prog) -> list[str]:
                 cnt = int(np.prod(out[0][1])) if out[0][1] else 1
                 ok = not ins and concrete(out[0]) and not out[0][2] and len(n["attrs"]["value"]) == cnt
                 ok = ok and n["attrs"].get("layout", "C") in LAYOUTS
-            elif op in ("Add", "Mul", "Less"):
+            elif op in ("Max", "Min"):
+                ts = [T(r) for r in ins]
+                ok = 1 <= len(ts) <= 3 and ts[0][0] in NUMERIC and not ts[0][2] and concrete(ts[0]) and all(
+                    same_ty(t, ts[0]) for t in ts) and same_ty(out[0], ts[0])
+            elif op == "Transpose":
+                x = T(ins[0])
+                pm = n["attrs"]["perm"]
+                ok = (not x[2] and concrete(x) and sorted(pm) == list(range(len(x[1]))) and len(x[1]) >= 2
+                      and same_ty(out[0], ty(x[0], [x[1][i] for i in pm])))
+            elif op in ("Add", "Mul", "Less", "Sub"):
                 a, b = T(ins[0]), T(ins[1])
                 sh = bshape(a, b)
                 ok = a[0] == b[0] and a[0] in NUMERIC and sh is not None and same_ty(
@@ -787,6 +817,15 @@ def eval_numpy(prog, binding: dict[int, np.ndarray]):
                 out = [np.add(inp(0), inp(1))]
             elif op == "Mul":
                 out = [np.multiply(inp(0), inp(1))]
+            elif op == "Sub":
+                out = [np.subtract(inp(0), inp(1))]
+            elif op in ("Max", "Min"):
+                acc_ = inp(0)
+                for j in range(1, len(n["ins"])):
+                    acc_ = (np.maximum if op == "Max" else np.minimum)(acc_, inp(j))
+                out = [np.array(acc_)]
+            elif op == "Transpose":
+                out = [np.transpose(inp(0), n["attrs"]["perm"])]
             elif op == "Neg":
                 out = [np.negative(inp(0))]
             elif op == "Abs":
@@ -1092,6 +1131,14 @@ def realise(prog, rng: random.Random, style: str = "lazy") -> Realised:
             outs = [op.add(a[0], a[1])]
         elif o == "Mul":
             outs = [op.mul(a[0], a[1])]
+        elif o == "Sub":
+            outs = [op.sub(a[0], a[1])]
+        elif o == "Max":
+            outs = [op.max(a)]
+        elif o == "Min":
+            outs = [op.min(a)]
+        elif o == "Transpose":
+            outs = [op.transpose(a[0], perm=n["attrs"]["perm"])]
         elif o == "Neg":
             outs = [op.neg(a[0])]
         elif o == "Abs":
